@@ -29,8 +29,8 @@ theorem merged_update_idempotent (m : Merged α) (tgt r : List (Val α)) (time :
 
 /-- the blend law a timeline must satisfy for `set_state` not to jump: started from `v` and evaluated at
 time 0 it reproduces `v` -/
-def BlendOK (n : Nat) (m : Merged α) : Prop :=
-  ∀ v : List (Val α), v.length = n → (m.startWith v).update v (Num.secsOfNanos 0) = .ok v
+def BlendOK (P : List (Val α) → Prop) (m : Merged α) : Prop :=
+  ∀ v : List (Val α), P v → (m.startWith v).update v (Num.secsOfNanos 0) = .ok v
 
 structure AnimInv (a : Animator α) : Prop where
   current : ∀ tl, a.timeline? a.state = some tl → tl.update a.values (Num.secsOfNanos a.stateNs) = .ok a.values
@@ -124,8 +124,8 @@ theorem notePause_spec (a : Animator α) (s : Nat) :
 
 /-- `set_state` never changes `current_values` (given the invariant and the blend law), and preserves
 the invariant -/
-theorem setState_spec (a a' : Animator α) (s : Nat) (hinv : AnimInv a) (n : Nat) (hlen : a.values.length = n)
-    (hblend : ∀ s tl, a.timeline? s = some tl → BlendOK n tl)
+theorem setState_spec (a a' : Animator α) (s : Nat) (hinv : AnimInv a) (P : List (Val α) → Prop) (hlen : P a.values)
+    (hblend : ∀ s tl, a.timeline? s = some tl → BlendOK P tl)
     (h : a.setState s = .ok a') : a'.values = a.values ∧ AnimInv a' ∧
       (∀ s' tl', a'.timeline? s' = some tl' → ∃ tl, a.timeline? s' = some tl ∧ (tl' = tl ∨ tl' = tl.startWith a.values)) := by
   unfold Animator.setState at h
